@@ -13,7 +13,7 @@
 (*   C14  StepSafe after every complete entry                              *)
 (*   C01/C10  Equivalent at Done, second plan empty                        *)
 (***************************************************************************)
-EXTENDS Asa, Json, IOUtils, SequencesExt
+EXTENDS Asa, Merge, Json, IOUtils, SequencesExt
 
 VARIABLES l,       \* trace lines consumed
           i0,      \* line of the Init event of the current trace
@@ -48,7 +48,7 @@ TInit ==
   /\ bind = BindOf(Trace[1].dev) /\ route = RouteOf(Trace[1].dev)
   /\ mode = "" /\ err = ""
 
-IsChange(e) == e.ev \notin {"Init", "Resume", "Done"}
+IsChange(e) == e.ev \notin {"Init", "Resume", "Done", "Unmergeable"}
 
 Dispatch(e) ==
   CASE e.ev = "AclInsert" -> AclInsert(e.n, e.pos, e.ace)
@@ -66,6 +66,7 @@ Dispatch(e) ==
     [] e.ev = "Exit"      -> Exit
     [] e.ev = "Resume"    -> Resume
     [] e.ev = "Done"      -> UNCHANGED dvars
+    [] e.ev = "Unmergeable" -> UNCHANGED dvars     \* outcome of a run on a raw file that cannot be merged
 
 \* a move: second half of a joined entry re-inserts the line the first half deleted
 IsMove(e) ==
@@ -175,6 +176,11 @@ RouteUnsafe ==
                                      /\ ~\E c \in route : c.fam = f /\ c.dst = r.dst
 
 -----------------------------------------------------------------------------
+\* C18: the ACL the script built on the empty device is the effective (merged) target
+IsMerge == "parts" \in DOMAIN T
+MergedAcl == LET c == CurAcl("inside", "in") IN IF c = "" \/ c \notin DOMAIN acl THEN <<>> ELSE acl[c]
+MergeOK == Admissible(MergedAcl, T.parts.v4, T.parts.v6, T.parts.pre, T.parts.app)
+
 Post(j) == acl = AclOf(j) /\ grp = GrpOf(j) /\ bind = BindOf(j) /\ route = RouteOf(j)
 
 Chk(ok, tag, detail, kf) == ok \/ PrintT(<<"VERR", LastEv.t, l, tag, detail, kf>>)
@@ -188,7 +194,12 @@ Mon ==
   /\ Chk(~(CompleteEntry /\ I0.safe /\ AclUnsafe), "C14", "access-list", IF AclUnsafeKF THEN "H2" ELSE "")
   /\ Chk(~(CompleteEntry /\ I0.safe /\ RouteUnsafe), "C14", "route", "")
   /\ Chk(LastEv.ev \in {"Resume", "Done"} => Post(LastEv.post), "HARNESS", "post state of replica differs", "")
-  /\ Chk(LastEv.ev = "Done" => Equivalent, "EQUIV", IF nchg = 0 THEN "unchanged" ELSE "final", "")
+  /\ Chk(LastEv.ev = "Done" /\ IsMerge => MergeOK, "C18",
+         IF IsMerge THEN Why(MergedAcl, T.parts.v4, T.parts.v6, T.parts.pre, T.parts.app) ELSE "", "")
+  \* C18: a raw entry that cannot be merged produces an error or a warning naming it
+  /\ Chk(LastEv.ev = "Unmergeable" => (LastEv.rc # 0 \/ LastEv.warned) /\ LastEv.named, "C18",
+         "raw entry that cannot be merged was dropped silently", "")
+  /\ Chk(LastEv.ev = "Done" /\ ~IsMerge => Equivalent, "EQUIV", IF nchg = 0 THEN "unchanged" ELSE "final", "")
   /\ Chk(LastEv.ev = "Done" => LastEv.n2 = 0, "FIXPOINT", "second compare reports changes", "")
 
 Accepted == TLCGet("stats").diameter = Len(Trace)
